@@ -20,7 +20,7 @@ import langpipe
 import printer
 import vlib
 
-CONTEXTS = ["id", "nest", "letq", "twice", "mcall", "scall", "hof", "rec", "lift", "bind", "lam", "pair"]
+CONTEXTS = ["id", "nest", "letq", "twice", "mcall", "scall", "hof", "rec", "lift", "bind", "lam", "pair", "selneg", "selzero", "selpos"]
 JOBS = {
     "quick": [
         ("f3", {"Template": '"f"', "Budget": 3}),
@@ -81,6 +81,11 @@ def form_programs():
             staged = f"{FORM_MACROS}{defs}\nfn f(x){{ {tmpl.format(e=e)} }}\nfn dsp(){{ f(1) + f(now) * 100 }}\n"
             expanded = f"{defs}\nfn f(x){{ {(exp or '{e}').format(e=e)} }}\nfn dsp(){{ f(1) + f(now) * 100 }}\n"
             out.append((f"form:{name}:{cname}", staged, expanded))
+    for i, m in enumerate(["0 - 1", "0 - 0.5", "sqrt(0 - 1)", "0", "0.5", "2"]):
+        staged = (f"#stage(main)\nfn up(s){{ self + s }}\n#stage(macro)\nfn sel(v){{ `{{ if ($(v |> lift_f)) {{ up(1.0) }} else {{ up(10.0) }} }} }}\n"
+                  f"#stage(main)\nfn dsp(){{ sel!({m}) }}\n")
+        expanded = f"fn up(s){{ self + s }}\nfn dsp(){{ if (({m})) {{ up(1.0) }} else {{ up(10.0) }} }}\n"
+        out.append((f"liftcond:{i}", staged, expanded))
     for i, m in enumerate(LIFTS):
         staged = f"fn dsp(){{ $(lift_f({m})) }}\n"
         expanded = f"fn dsp(){{ ({m}) }}\n"
